@@ -3,7 +3,8 @@
 # and, when confirmed, copies it to /verif/seeded/<ID>-<m>/ (patch.diff, demo, meta.json with what was run).
 set -u
 ID=$1; M=$2
-SRC=/tmp/seed/$ID/out/$M
+ROOT=${SEEDROOT:-/tmp/seed}; TAG=${SEEDTAG:-}
+SRC=$ROOT/$ID/out/$M
 WT=/tmp/confirm/$ID-$M
 export GOFLAGS=-mod=mod GOPROXY=off
 unset GOTOOLCHAIN GOSUMDB
@@ -29,7 +30,7 @@ OK=no
 if [ $CLEAN -eq 0 ] && [ $BUILD -eq 0 ] && [ $MUT -ne 0 ] && [ $FAILS -eq 0 ] && [ $PKGFAIL -eq 0 ]; then OK=yes; fi
 echo "$ID $M: demo_on_clean_exit=$CLEAN build=$BUILD demo_on_mutant_exit=$MUT suite_unexpected_fails=$FAILS pkgfail=$PKGFAIL confirmed=$OK"
 if [ $OK = yes ]; then
-  D=/verif/seeded/$ID-$M; mkdir -p $D
+  D=/verif/seeded/$ID-$TAG$M; mkdir -p $D
   cp $SRC/patch.diff $D/patch.diff; cp $SRC/demo_test.go $D/demo_test.go
   python3 - <<PY
 import json
